@@ -29,6 +29,10 @@ def main():
         import check_c08 as m
     elif pid == "C10":
         import check_c10 as m
+    elif pid == "C09":
+        import check_c09 as m
+    elif pid == "C11":
+        import check_c11 as m
     elif pid == "C17":
         import check_c17 as m
     else:
